@@ -99,6 +99,9 @@ reg = {
                         "helpers": ["clone", "get_page", "new", "verify_checksum", "fixed_width", "fixed_width_with", "next", "parse_subtree_roots", "value", "range", "hint"]},
         # the release of a deleted table's pages (fragment of TableTreeMut::delete_table)
         "tabledel": {"overlay": "units/tabledel.ovl", "canaries": ["canary_tabledel"], "helpers": ["lock", "drop", "from", "remove", "free_if_uncommitted", "uncommitted", "free"]},
+        # ReadOnlyDatabase::new over models of its callees
+        "roopen": {"overlay": "units/roopen.ovl", "canaries": ["canary_roopen"],
+                   "helpers": ["from", "new", "next", "load_allocator_state", "get_last_committed_transaction_id", "get_allocator_state_table"]},
         "types_sep": {"overlay": "units/types_sep.ovl", "canaries": ["canary_types_sep"], "helpers": ["common_prefix_len"]},
         # the page-level checksum walk over an abstract page store
         "merkle": {"overlay": "units/merkle.ovl", "canaries": ["canary_merkle"],
@@ -177,9 +180,10 @@ P["C20"] = {
     "level": "proof",
     "verus": [{"unit": "alloc", "functions": LAYOUT + ["BuddyAllocator::trailing_free_pages", "BuddyAllocator::find_free_order", "PageNumber::*",
                                               "TransactionalMemory::try_shrink", "TransactionalMemory::grow", "TransactionalMemory::commit", "TransactionalMemory::close", "TransactionalMemory::mark_page_allocated", "TransactionalMemory::check_page_order", "Mutex::lock", "drop", "max_u64", "InMemoryState::get_region", "InMemoryState::allocators", "InMemoryState::allocators_mut",
-                                              "DatabaseHeader::*", "Allocators::resize_to", "Allocators::lemma_resize_shrink", "Allocators::lemma_grow_step_*", "lemma_pow2_shift"]}],
+                                              "DatabaseHeader::*", "Allocators::resize_to", "Allocators::lemma_resize_shrink", "Allocators::lemma_grow_step_*", "lemma_pow2_shift"]},
+              {"unit": "roopen", "functions": ["ReadOnlyDatabase::new"]}],
     "kani": [K["C20-L1"], K["C20-L2a"], K["C20-L2b"], K["C20-L3a"], K["C20-L3b"]],
-    "explanation": "Kernel: (A1) every page of every region of a valid layout ends inside layout.len() (lemma_page_in_bounds over the real layout.rs accessors); (A2) reduce_last_region shortens the layout by exactly the pages cut (plus the region header when the region disappears) and recalculate(file_len) never extends past the file; (A3) calculate(d) offers at least d usable bytes; (A4) never shrinks below a page still in use: the pages trailing_free_pages reports are all free, and the REAL try_shrink cuts at most those pages from the last region (reduce_last_region), hands resize_to a layout whose removed pages are all free, keeps the allocator state consistent with the header layout, and never lengthens the layout; the REAL TransactionalMemory::commit truncates the file (storage.resize) only after the header carrying the shorter layout has been written and synced, to exactly that layout's length; the REAL TransactionalMemory::grow extends the file to exactly the new layout's length and syncs it BEFORE the allocator state and the header adopt the larger layout, leaves the state untouched when either step fails, never shortens the layout, makes room for the allocation that asked for it, and keeps every region but the last as it was; the REAL TransactionalMemory::close reaches the backend's close() exactly once, as the last event, also when the shutdown writes failed; (L1) the I/O-failure latch is inductive and nothing reaches the backend once it is set; (L2) close() reaches the backend once and nothing afterwards; (L3) the read-only wrapper forwards no mutation.",
+    "explanation": "Kernel: (A1) every page of every region of a valid layout ends inside layout.len() (lemma_page_in_bounds over the real layout.rs accessors); (A2) reduce_last_region shortens the layout by exactly the pages cut (plus the region header when the region disappears) and recalculate(file_len) never extends past the file; (A3) calculate(d) offers at least d usable bytes; (A4) never shrinks below a page still in use: the pages trailing_free_pages reports are all free, and the REAL try_shrink cuts at most those pages from the last region (reduce_last_region), hands resize_to a layout whose removed pages are all free, keeps the allocator state consistent with the header layout, and never lengthens the layout; the REAL TransactionalMemory::commit truncates the file (storage.resize) only after the header carrying the shorter layout has been written and synced, to exactly that layout's length; the REAL TransactionalMemory::grow extends the file to exactly the new layout's length and syncs it BEFORE the allocator state and the header adopt the larger layout, leaves the state untouched when either step fails, never shortens the layout, makes room for the allocation that asked for it, and keeps every region but the last as it was; the REAL TransactionalMemory::close reaches the backend's close() exactly once, as the last event, also when the shutdown writes failed; (L1) the I/O-failure latch is inductive and nothing reaches the backend once it is set; (L2) close() reaches the backend once and nothing afterwards; (L3) the read-only wrapper forwards no mutation; (RO) the REAL ReadOnlyDatabase::new wraps the file in the read-only backend, opens the page store read-only and WITHOUT permission to initialise the file, and gives up with RepairAborted instead of repairing when no saved allocator state is usable.",
     "not_decided": "'exactly once' across Database / transaction hand-off on threads; failing opens through Builder; page numbers followed from a corrupted branch page on the READ path (get_page; mark_page_allocated validates the page numbers of the rebuild against the layout); flush_shutdown_header (assumed not to close the backend); allocate_helper's call of grow (it holds the state lock across the call)",
 }
 P["C08"] = {
